@@ -519,6 +519,11 @@ where
 			return Err(error);
 		}
 
+		if buf.is_empty() && index == 0 {
+			// serialized form of an empty window (`Window::empty()`, windowless methods)
+			return Ok(Self::empty());
+		}
+
 		if (buf.len() as PeriodType) <= index {
 			let error =
 				SerdeError::custom(format!("Index {index} is out of window's buffer bounds."));
